@@ -422,10 +422,15 @@ def _case(draw):
         # the wrapped scikit-learn estimator was trained by the caller before
         # it was wrapped (every class seen); fit must not keep that model
         dq = len(Xq[0])
-        n0 = draw(st.integers(K, K + 3))
+        n0 = 2 * K + draw(st.integers(0, 2))
         perm = draw(st.permutations(list(range(K))))
+        shift = draw(st.sampled_from([0.0, 1.5, -3.0]))
+        # pairwise distinct rows with spread in every feature and two samples
+        # per class: the caller's own training set is not degenerate (zero
+        # variance makes scikit-learn's GaussianNB return NaN - KF-C11-6)
         cfg["params"]["estimator"]["prefit"] = {
-            "X": draw(_rows(n0, dq)),
+            "X": [[shift + 0.75 * i * (-1) ** i + 0.3 * j * (i % 3)
+                   for j in range(1, dq + 1)] for i in range(n0)],
             "y": [labels[perm[i % K]] for i in range(n0)]}
         tags.append("inner_prefit")
     return case
